@@ -45,7 +45,14 @@ Section Vec.
 
   (** [A2B[:3,:3].dot(p) + A2B[:3,3]] *)
   Definition transform_point (T : Pose F) (p : V3 F) : V3 F := vadd (mulMV (rot T) p) (trans T).
-  (** [A2B[:3,:3].T.dot(p - A2B[:3,3])] *)
+  (** the inverse pose map in its mathematical form R^T (p - t): used by specifications and
+      proofs.  NOT a transliteration of utils.inverse_transform_point (see the next definition). *)
   Definition inverse_transform_point (T : Pose F) (p : V3 F) : V3 F :=
     mulTV (rot T) (vsub p (trans T)).
+  (** utils.inverse_transform_point as written (utils.py:206-207):
+      [RT = A2B[:3, :3].T; return np.dot(RT, point_in_B) - np.dot(RT, A2B[:3, 3])];
+      equal to the form above over the reals (Base/RVec3.v), not bit for bit in binary64.
+      Models of code that calls utils.inverse_transform_point must use THIS definition. *)
+  Definition inverse_transform_point_code (T : Pose F) (p : V3 F) : V3 F :=
+    vsub (mulTV (rot T) p) (mulTV (rot T) (trans T)).
 End Vec.
